@@ -1,7 +1,7 @@
 (** C06 — a crash at any point loses at most the unsynced tail and never corrupts: the
     property theorems (statements only; proofs are in Wal/Proofs*.v).  Pinned by props/C06.statements. *)
 From GV Require Export Wal.Spec.
-From GV Require Import Wal.ProofsFrame Wal.ProofsRecover Wal.ProofsDb Wal.ProofsSnap Wal.ProofsWitness.
+From GV Require Import Wal.ProofsFrame Wal.ProofsRecover Wal.ProofsDb Wal.ProofsSnap Wal.ProofsCodec Wal.ProofsCrash Wal.ProofsReal Wal.ProofsWitness.
 Open Scope Z_scope.
 
 (** a file of whole frames is read back completely *)
@@ -53,6 +53,63 @@ Print Assumptions recover_committed_only.
 Theorem recover_ignores_tmp : forall crc dec fs m t1 t2, recover crc dec (mkDisk fs m t1) = recover crc dec (mkDisk fs m t2).
 Proof. exact recover_ignores_tmp. Qed.
 Print Assumptions recover_ignores_tmp.
+
+(** a crash that cuts only the last file: the image is read as the records of the earlier
+    files followed by exactly the records of the last file whose frames lie wholly inside the
+    cut, and what it commits is a prefix of what the uncut directory commits *)
+Theorem crash_prefix_tail : forall crc enc dec, crc_u32 crc -> forall fs0 s f rs_f n meta tmp,
+  meta <> MetaBad -> Forall (rec_ok enc dec) rs_f -> f_bytes f = concat (map (frame crc) (map enc rs_f)) ->
+  let k := frames_within n (map enc rs_f) in
+  let before := disk_records crc dec (min_seq meta) fs0 in
+  let keep (l : list record) := if s <? min_seq meta then [] else l in
+  recover crc dec (mkDisk (fs0 ++ [(s, cut_file n f)]) meta tmp) = ROk (committed (before ++ keep (firstn k rs_f)))
+  /\ recover crc dec (mkDisk (fs0 ++ [(s, f)]) meta tmp) = ROk (committed (before ++ keep rs_f))
+  /\ exists tail, committed (before ++ keep rs_f) = committed (before ++ keep (firstn k rs_f)) ++ tail.
+Proof. exact crash_prefix_tail_l. Qed.
+Print Assumptions crash_prefix_tail.
+
+(** everything the fsynced part of the last file commits survives every such crash *)
+Theorem synced_commits_survive : forall crc enc dec, crc_u32 crc -> forall fs0 s f rs_f n meta tmp,
+  meta <> MetaBad -> Forall (rec_ok enc dec) rs_f -> f_bytes f = concat (map (frame crc) (map enc rs_f)) ->
+  (Z.to_nat (f_synced f) <= n)%nat -> s <? min_seq meta = false ->
+  let ks := frames_within (Z.to_nat (f_synced f)) (map enc rs_f) in
+  let before := disk_records crc dec (min_seq meta) fs0 in
+  exists rs tail,
+    recover crc dec (mkDisk (fs0 ++ [(s, cut_file n f)]) meta tmp) = ROk rs
+    /\ rs = committed (before ++ firstn ks rs_f) ++ tail.
+Proof. exact synced_commits_survive_l. Qed.
+Print Assumptions synced_commits_survive.
+
+(** a database whose log is one file (no rotation), after any clean history: whatever the next
+    session does — logged or unlogged calls, checkpoints, syncs — every crash image that keeps
+    at least the bytes the last close left opens, and yields exactly the store of the last
+    close (a prefix of the issued operations: the empty prefix of the session) *)
+Theorem crash_recovers_last_close : forall crc enc dec, crc_u32 crc -> forall cfg ss st os n f,
+  no_crash ss = true -> forallb kclean (hist_flags crc enc dec cfg db_fresh ss) = true ->
+  snd (run_sessions crc enc dec cfg db_fresh ss) = ROk st ->
+  Forall (rec_ok enc dec) (hist_logs crc enc dec cfg db_fresh ss ++ ops_logs crc enc cfg st os) ->
+  w_seq (db_w (fst (run_ops crc enc cfg st os))) = w_seq (db_w st) ->
+  d_files (w_disk (db_w st)) = [(0, f)] -> (length (f_bytes f) <= n)%nat ->
+  exists st2, db_open crc dec (cut_disk [(0, Z.of_nat n)] (wdrop (db_w (fst (run_ops crc enc cfg st os))))) = ROk st2
+              /\ db_store st2 = db_store st.
+Proof. exact crash_recovers_last_close_l. Qed.
+Print Assumptions crash_recovers_last_close.
+
+Theorem crash_recovers_last_close_real : forall cfg ss st os n f,
+  no_crash ss = true -> forallb kclean (real_flags cfg ss) = true ->
+  snd (real_sessions cfg ss) = ROk st ->
+  Forall rec_fits (real_logs cfg ss ++ ops_logs crc32 enc_record cfg st os) ->
+  w_seq (db_w (fst (real_ops cfg st os))) = w_seq (db_w st) ->
+  d_files (w_disk (db_w st)) = [(0, f)] -> (length (f_bytes f) <= n)%nat ->
+  exists st2, real_open (cut_disk [(0, Z.of_nat n)] (wdrop (db_w (fst (real_ops cfg st os))))) = ROk st2
+              /\ db_store st2 = db_store st.
+Proof. exact crash_recovers_last_close_real_l. Qed.
+Print Assumptions crash_recovers_last_close_real.
+
+(** CRC-32 is a 32-bit value (the premise [crc_u32] of the theorems above, for the real checksum) *)
+Theorem crc32_is_u32 : crc_u32 crc32.
+Proof. exact crc32_range. Qed.
+Print Assumptions crc32_is_u32.
 
 (** C06-K1: all bytes fsynced, nothing cut, and the reopened database lacks the session *)
 Theorem synced_but_uncommitted_lost_refuted : exists cfg os,
